@@ -10,8 +10,9 @@ import (
 )
 
 // devProbe: development aid and hand replay without a replay file:
-//   C11_PROBE="R1 | tXV150,B:uC1+100;vXnc | vVC2" .build/c11        (phase 1 / phase R history, verbose)
-//   C11_MENU=1 .build/c11 -tier quick                                (sizes of the menus)
+//
+//	C11_PROBE="R1 | tXV150,B:uC1+100;vXnc | vVC2" .build/c11        (phase 1 / phase R history, verbose)
+//	C11_MENU=1 .build/c11 -tier quick                                (sizes of the menus)
 func devProbe(safe core.RunFunc) bool {
 	if os.Getenv("C11_MENU") != "" {
 		for d := 1; d <= rMaxBlocks(); d++ {
